@@ -581,8 +581,8 @@ def run_histories(ctx, n, hists=None, ref=False):
 
 
 def correspond(ctx):
-    rw = run_walks(ctx, ctx.n(1500, 60000))
-    rh = run_histories(ctx, ctx.n(45, 1200))
+    rw = run_walks(ctx, ctx.n(4000, 150000))
+    rh = run_histories(ctx, ctx.n(150, 3000))
     dist = dict(rw["distribution"])
     dist.update(rh["distribution"])
     dist["unit-level walk cases"] = rw["evaluations"]
